@@ -42,9 +42,14 @@ func c15apiMix(rep *vh.Report, seed uint64, idx int) {
 	port := freeTCPPort()
 	eps = append(eps, gomavlib.EndpointTCPServer{Address: fmt.Sprintf("127.0.0.1:%d", port)})
 	var outKey *frame.V2Key
-	if r.Chance(1, 2) || k == 64 {
+	if r.Chance(1, 3) || k == 64 {
 		outKey = frame.NewV2Key(r.Bytes(32))
 	}
+	// in half of the runs the peers sign everything they send (a router in a signed network without keys of its own)
+	allSigned := idx%2 == 0
+	// every third run the application's own writers are slow, so that the queues have room for what the consumer forwards
+	// (otherwise most forwarded frames are discarded at the full queues and never reach a writer goroutine)
+	router := idx%3 == 1
 	node := &gomavlib.Node{Endpoints: eps, Dialect: testDialect, OutVersion: gomavlib.V2, OutSystemID: 51, OutKey: outKey,
 		HeartbeatPeriod: 5 * time.Millisecond, StreamRequestEnable: true, IdleTimeout: time.Second, WriteTimeout: 200 * time.Millisecond}
 	if err := node.Initialize(); err != nil {
@@ -92,7 +97,7 @@ func c15apiMix(rep *vh.Report, seed uint64, idx int) {
 			for j := 0; j < 30 && atomic.LoadInt32(&stop) == 0; j++ {
 				_, _ = c.Write(uidFrame(uint64(j), byte(j), 8, j%4 == 0, nil, 0))
 				_, _ = c.Write(hbFrame(byte(1+j%200), byte(1+i%50), 3, 0))
-				if j%3 == 1 {
+				if j%3 == 1 || allSigned {
 					// a signed frame (the node checks no signatures): its signature block travels with the forwarded frame
 					_, _ = c.Write(uidFrame(uint64(j)|1<<40, byte(j), 8, false, peerKey, uint64(1000+i*100+j)))
 				}
@@ -112,7 +117,7 @@ func c15apiMix(rep *vh.Report, seed uint64, idx int) {
 			for i := 0; atomic.LoadInt32(&stop) == 0; i++ {
 				tr.Feed(uidFrame(uint64(ti)<<32|uint64(i), byte(i), 9, i%3 == 0, nil, 0))
 				tr.Feed(hbFrame(byte(1+i%250), byte(1+(i/250)%250), 3, uint32(i)))
-				if i%3 == 2 {
+				if i%3 == 2 || allSigned {
 					tr.Feed(uidFrame(uint64(ti)<<32|uint64(i)|1<<40, byte(i), 9, false, peerKey, uint64(1000+i)))
 					rep.Count("signed_frames_fed", 1)
 				}
@@ -177,6 +182,9 @@ func c15apiMix(rep *vh.Report, seed uint64, idx int) {
 				if i%16 == 0 {
 					time.Sleep(50 * time.Microsecond)
 				}
+				if router {
+					time.Sleep(400 * time.Microsecond)
+				}
 			}
 		}(g)
 	}
@@ -190,8 +198,20 @@ func c15apiMix(rep *vh.Report, seed uint64, idx int) {
 	<-cons.done
 	rep.Eval(1)
 	rep.Count("api_mix_runs", 1)
+	if router {
+		rep.Count("api_mix_runs_router_mode", 1)
+		n := 0
+		for _, tr := range trs {
+			n += tr.NWrites()
+		}
+		rep.Count("router_mode_frames_written_to_custom_links", n)
+	}
 	rep.Count("frames_forwarded_by_consumer", int(atomic.LoadInt64(&fwd)))
-	rep.Distinct("sig", hookSignature())
+	if atomic.LoadInt32(&hookOff) != 0 {
+		rep.Distinct("unhooked", idx, k, outKey != nil, allSigned, router)
+	} else {
+		rep.Distinct("sig", hookSignature())
+	}
 	for p, n := range hookHits() {
 		rep.Count("hook:"+p, n)
 	}
@@ -203,7 +223,7 @@ func TestC15(t *testing.T) {
 	rep.Rule("Go race detector (GORACE halt_on_error=0, reports kept when a frame of github.com/bluenviron/gomavlib/v3 is on a stack, de-duplicated by outermost library entry points) over: an API mix " +
 		"(3-4 custom channels + a TCP server with peers coming and going, incoming v1 / v2 / signed v2 frames and frames of unknown ids, heartbeats at 5 ms, stream requests triggered from >= 3 channels at once, eight goroutines issuing all six Write* flavours with " +
 		"their own v1/v2 frame objects and one shared message value, the consumer forwarding and fixing received frames, a channel closing and re-opening, Close racing with everything) and the workloads " +
-		"of C10, C11, C12 (random-instant closes over all eleven endpoint kinds), C13, C14 (client / serial reconnect sequences, servers with many peers) and C16 re-run under the detector; several shards with different GOMAXPROCS. distinct = interleaving signatures of the API-mix runs")
+		"of C10, C11, C12 (random-instant closes over all eleven endpoint kinds), C13, C14 (client / serial reconnect sequences, servers with many peers) and C16 re-run under the detector; several shards with different GOMAXPROCS. Two iterations out of three run with no hook installed (the hook's mutex would add happens-before edges between library goroutines and hide races from the detector); the others use hook perturbation. distinct = interleaving signatures of the hooked API-mix runs + configurations of the unhooked ones")
 	rep.Assume("each goroutine uses its own frame objects (the API mutates the frame it is given); absence of reports on the schedules run is not absence of races")
 	seed := shardSeed()
 	shard, _ := shardInfo()
@@ -212,6 +232,15 @@ func TestC15(t *testing.T) {
 	defer gomavlib.VerifSetReconnectPeriod(prev)
 	n := vh.Pick(9, 240)
 	for i := 0; i < n; i++ {
+		// two runs out of three without the harness's hook: its mutex would order the library's goroutines
+		if i%3 != 0 {
+			atomic.StoreInt32(&hookOff, 1)
+			fake.SetUnordered(true)
+			rep.Count("iterations_without_hooks", 1)
+		} else {
+			atomic.StoreInt32(&hookOff, 0)
+			fake.SetUnordered(false)
+		}
 		c15apiMix(rep, seed, i)
 		switch (i + shard) % 6 {
 		case 0:
@@ -241,6 +270,8 @@ func TestC15(t *testing.T) {
 		}
 		rep.Eval(1)
 	}
+	atomic.StoreInt32(&hookOff, 0)
+	fake.SetUnordered(false)
 	if vh.Thorough() && shard == 0 {
 		// a scenario longer than 30 s so that the stream-request cleaner runs against active readers
 		c15long(rep)
